@@ -25,7 +25,7 @@ def run(tier, seed):
               'admissible argument counts = the required positional parameters of the implementation, plus one and two more for variadic functions and for the optional arguments Excel documents (table OPTIONAL in harness/c11_total.py), at most 5',
               'error propagation is demanded of every function except the documented error-handling / inspection / selection functions listed in harness/c11_total.py:exempt()')
     ck.out_of_scope('optional arguments beyond the second', 'argument tuples outside the pools (12 values for <= 2 arguments, 8 for 3, 4 for 4-5; no number above 1E+154: see known finding C11-overflow-to-infinity)', 'functions evaluated through formulas / ranges of a workbook')
-    ck.check_known_witness('C11-overflow-to-infinity', INF_WITNESS)
+    known_inf = ck.check_known_witness('C11-overflow-to-infinity', INF_WITNESS)
     quick = tier == 'quick'
     src = open(os.path.join(ROOT, 'harness', 'c11_total.py')).read()
     groups = [names[i:i + 8] for i in range(0, len(names), 8)]
@@ -34,7 +34,7 @@ def run(tier, seed):
     T = 170 if quick else 900
     try:
         for gi, g in enumerate(groups):
-            h = Harness(ck, 'c11_g%02d' % gi, src.replace('__GROUP__', repr(g))); hs.append(h)
+            h = Harness(ck, 'c11_g%02d' % gi, src.replace('__GROUP__', repr(g)).replace('__KNOWN_INF__', 'True' if known_inf else 'False')); hs.append(h)
             only = ['total0_ok', 'total1_ok', 'total2_ok', 'error_kept_ok'] + (['total3_ok'] if not quick or gi % 4 == seed % 4 else []) + \
                 ([] if quick else ['total4_ok'])
             batch.add(h, T, only=only, bounds='functions %s ... %s' % (g[0], g[-1]))
